@@ -329,6 +329,11 @@ def header_line_rule(ctx):
         for lid, b in fv.binds.items():
             if b["name"] == "header" and b["val"][0] in ("node", "uninit"):
                 cands.append(string_pieces(fv, ("local", b["name"], lid)))
+            elif (b.get("ty") or "").endswith("string::String") and b["val"][0] in ("node", "uninit"):
+                # whatever it is called: a String local whose value mentions get_header()
+                ps_ = string_pieces(fv, ("local", b["name"], lid))
+                if any(p_[0] == "term" and contains(p_[1], lambda s_: s_[0] == "call" and s_[1].endswith("::get_header")) for p_ in ps_):
+                    cands.append(ps_)
         # a mutable `header` assigned later: take the assigned value
         for n in fv.nodes:
             if n.get("k") == "assign" and n["l"].get("k") == "local" and n["l"]["name"] == "header":
